@@ -6,10 +6,15 @@
    Select-preparation leg (both modes; with the argument `selprep` the T lines are ignored): every `X snap` line
    (harness/c16_snap.h) is a snapshot of the real daemon's globals at a select together with the timeout and
    descriptor sets the real code passed.  DISAGREE: `SelPrep.timeout/rfds/wfds` differ from what the code passed.
-   ORACLE: the predicates of `C16_no_spin` / `C16_early_return_acts` evaluated on the implementation's values. -/
+   ORACLE: the predicates of `C16_no_spin` / `C16_early_return_acts` evaluated on the implementation's values, and
+   the predicates of `C16_never_past_any_queued` evaluated on the implementation's timeout and on ALL entries of
+   the implementation's priority-queue arrays (q0= q1= qfail= qdone=): "earliest due event" is the minimum over
+   everything queued, not the heap root the code reads.  Its premise (every root is a minimum of its queue) is
+   checked on the arrays as well (DISAGREE). -/
 import Drv.Util
 import Nq.Trigger
 import Nq.SelPrep
+import Nq.Spec.SelQueued
 
 open Nq Nq.Trigger Drv
 
@@ -80,6 +85,33 @@ def kvOf (toks : List String) (k : String) : String :=
   match toks.find? (fun t => t.startsWith (k ++ "=")) with
   | some t => (t.drop (k.length + 1)).toString
   | none => ""
+
+def parseDts (v : String) : Option (List Int) :=
+  if v == "-" then some [] else (v.splitOn ",").mapM (·.toInt?)
+
+open Nq.SelPrep in
+/-- the contents of the four priority-queue arrays (absent in traces of an older harness: no check then) -/
+def parseQueued (toks : List String) : Option Queued := do
+  if kvOf toks "q0" == "" then none
+  let q0 ← parseDts (kvOf toks "q0")
+  let q1 ← parseDts (kvOf toks "q1")
+  let qf ← parseDts (kvOf toks "qfail")
+  let qd ← parseDts (kvOf toks "qdone")
+  return { chans := [q0, q1], fail := qf, done := qd }
+
+open Nq.SelPrep in
+/-- the predicates of C16_never_past_any_queued on the implementation's timeout and queue contents; `none` = they hold -/
+def queuedOracle (s : Snap) (q : Queued) (tmo : Int) : Option String :=
+  if s.recent < 0 then none else
+  if tmo == 0 && !pendingQ s q then some "timeout_0_with_nothing_queued_due(busy_loop)"
+  else if tmo != 0 && pendingQ s q then some "positive_timeout_although_a_queued_entry_or_timer_is_due"
+  else
+    let w := s.recent + tmo - SLEEP_FUZZ
+    match (queuedDue s q).find? (fun t => decide (w > t)) with
+    | some t => if tmo > 0 then some s!"sleeps_past_a_queued_due_time:{t}_is_queued_but_wakeup_is_{w}" else none
+    | none =>
+      if tmo > 0 && !(w == s.recent + SLEEP_FOREVER || (queuedDue s q).contains w) then some "wakes_for_a_time_at_which_nothing_queued_is_due"
+      else none
 
 open Nq.SelPrep in
 def parseSnap (toks : List String) : Option (Snap × Int × List String × List String) := do
@@ -227,7 +259,19 @@ def handle (d : D) (line : String) : IO D := do
       if mt != tmo || mrf != sortStr rf || mwf != sortStr wf then
         if d.snapBad < 20 then IO.println s!"DISAGREE {d.c.hdr} select#{d.c.nsnap} model timeout={mt} rfds={mrf} wfds={mwf} impl: {" ".intercalate rest}"
         d := { d with snapBad := d.snapBad + 1, st := { d.st with disagree := d.st.disagree + 1 } }
-      match snapOracle s tmo rf wf with
+      let qd := parseQueued rest
+      -- premise of C16_never_past_any_queued on the implementation's arrays: every root the loop read is a minimum
+      match qd with
+      | some q =>
+        if q.chans.any (fun l => l.length ≥ 3) || q.done.length ≥ 3 || q.fail.length ≥ 3 then d := { d with st := d.st.bump "snap_some_queue_holds_3_or_more" }
+        if !Nq.SelPrep.heapRoots s q then
+          if d.snapBad < 20 then IO.println s!"DISAGREE {d.c.hdr} select#{d.c.nsnap} a prioq_min the select preparation read is not the minimum of its queue (premise HeapRoots of C16_never_past_any_queued; heap order of prioq.c): {" ".intercalate rest}"
+          d := { d with snapBad := d.snapBad + 1, st := { d.st with disagree := d.st.disagree + 1 } }
+      | none => pure ()
+      let verdict := match snapOracle s tmo rf wf with
+        | some why => some why
+        | none => qd.bind (fun q => queuedOracle s q tmo)
+      match verdict with
       | some why =>
         if d.st.oracle < 20 then IO.println s!"ORACLE {d.c.hdr} select#{d.c.nsnap} why={why} snap: {" ".intercalate rest}"
         d := { d with st := { d.st with oracle := d.st.oracle + 1 } }
@@ -247,6 +291,8 @@ def handle (d : D) (line : String) : IO D := do
       d := { d with c := { d.c with prev := some (s, kvOf rest "tready" == "1", rf.contains "t") } }
       return d
   | "X" :: "start" :: _ => return { d with c := { d.c with prev := none } }      -- a new incarnation of the daemon
+  | "X" :: "intr" :: _ =>      -- this select was interrupted by a signal (EINTR): the loop body did not run, so nothing follows from `prev`
+    return { d with c := { d.c with prev := none }, st := d.st.bump "daemon_selects_interrupted_by_a_signal" }
   | "X" :: "select-storm" :: rest =>
     IO.println s!"ORACLE {d.c.hdr} why=busy_loop:the_daemon_does_not_stop_calling_select {" ".intercalate rest}"
     return { d with st := { d.st with oracle := d.st.oracle + 1 } }
